@@ -28,6 +28,28 @@ CHECKS = {
                      "exists, before the ACK; Unicode labels; all reliability settings; negotiated pairs) under datagram faults: datachannel "
                      "event fidelity, forward-only readyState with single open/close events, both ends closed after close(), id reusable, "
                      "all channels closed at association end, bufferedAmount == accepted - handed after every scheduler step."),
+    "C10": dict(engine="history_sim", design="10/C10", technique="deterministic simulation: generated RTP stream through a seeded faulty network into the real JitterBuffer; per-add() reference oracle over the recorded arrival history",
+                text="Seeded exploration of arrival histories (loss, duplication, reordering, sender jumps, origins at the 16/32-bit wrap, "
+                     "capacities 4-128, prefetch 0-4, audio/video): every released frame is the concatenation of received, consecutive, "
+                     "same-timestamp packets; no packet reused and frames in order while nothing arrived >=100 positions late; occupancy "
+                     "bounded; never raises; key-frame request whenever held packets are discarded (video); for complete streams whose "
+                     "displacement fits the ring every frame is released exactly once (after an in-order drain tail)."),
+    "C12": dict(engine="history_sim", design="10/C12", technique="deterministic simulation: register/unregister operations interleaved by scheduler and network with RTP/RTCP packets; dict-based reference router compared at every routing decision",
+                text="Seeded exploration of histories of receiver/sender registrations and unregistrations (overlapping payload types, SSRC "
+                     "latching, re-registration) interleaved with RTP and RTCP packets of every type delivered by a delaying/reordering/"
+                     "duplicating network: each route_rtp()/route_rtcp() result equals the reference router's; nothing is ever routed to an "
+                     "unregistered party. SSRCs claimed by two parties at once are judged leniently (the statement does not order them)."),
+    "C15": dict(engine="history_sim", design="10/C15", technique="deterministic simulation: traffic segments through a bottleneck-queue network model and a sender clock with arbitrary origin into the real RemoteBitrateEstimator; sliding-window reference and bound oracles per arrival",
+                text="Seeded exploration of arrival histories (10-3000 pps, sizes 0-1500, idle gaps around and beyond the 1 s window, bursts, "
+                     "bottleneck squeezes that ramp delay, 24-bit abs-send-time wrap, several SSRCs, loss/duplication/reordering): add() never "
+                     "raises; every estimate is a non-negative int that REMB encodes, listing exactly the SSRCs seen; an estimate that rises is "
+                     "<= 1.5 x measurement + 10 kbit/s; on over-use <= 85 % of the measurement; the measurement equals the bits of exactly the "
+                     "packets of the last 1000 ms over the running part of that window."),
+    "C18": dict(engine="history_sim", design="10/C18", technique="deterministic simulation: generated RTP streams through a seeded faulty network and a jumping wall clock into a real RTCRtpReceiver; every receiver report its RTCP task puts on the wire is compared with an RFC 3550 reference fed the same arrivals",
+                text="Seeded exploration of per-SSRC arrival histories (loss, duplication, reordering, sequence jumps up to 32000, several "
+                     "sequence cycles, timestamp jumps and 2^32 wrap, wall-clock jumps) into a real RTCRtpReceiver (audio and video) whose own "
+                     "RTCP task reports at its seeded intervals: fraction lost, cumulative lost (24-bit clamp), extended highest sequence and "
+                     "jitter of every report block on the wire equal the RFC 3550 A.1/A.3/A.8 reference; the report task never dies; getStats agrees."),
 }
 
 NOT_APPLICABLE = [
@@ -39,6 +61,8 @@ NOT_APPLICABLE = [
 LEVELS = {"C05": "fault_enumeration", "C19": "fault_enumeration"}
 
 ENGINES = [
+    {"name": "history_sim", "path": "simrtc/engines/history_sim.py", "serves_properties": ["C10", "C12", "C15", "C18", "C17"],
+     "kind_free_text": "real JitterBuffer / RemoteBitrateEstimator / RTCRtpReceiver statistics and RTCP task / RtpRouter fed by a generated sender through SimNet under SimLoop (virtual time); reference models compared event by event"},
     {"name": "sctp_sim", "path": "simrtc/engines/sctp_sim.py", "serves_properties": ["C01", "C02", "C06", "C08", "C13", "C17"],
      "kind_free_text": "two real RTCSctpTransports + RTCDataChannels over a stub DTLS on SimNet under SimLoop (virtual time, seeded scheduler)"},
 ]
